@@ -122,7 +122,111 @@ class Bounder:
             for g in self.f.guards_at(live[0].bb):
                 if g not in out:
                     out.append(g)
+        # answers of boolean helpers:  if (needs_extended(w, x)) ... else <here>
+        for cond, outcome, br in list(out):
+            for g in self._import_predicate(cond, outcome, br):
+                out.append(g)
         cache[key] = out
+        return out
+
+    def _import_predicate(self, cond, outcome, br):
+        """facts implied by the answer of an internal boolean helper, translated into this function: the helper's own
+        branch conditions on the path to the only return that can produce that answer, with parameters replaced by the
+        call's arguments and loads through parameters re-created at the call site"""
+        from .errflow import ret_sources
+        from .ir import Inst, ExternFn
+        if outcome not in (True, False):
+            return []
+        x, pol = cond, outcome
+        if x.is_inst and x.op == "icmp" and x.ops[1].is_const and x.ops[1].is_int and x.ops[1].sval == 0 and x.pred in ("eq", "ne"):
+            pol = (x.pred == "ne") == outcome
+            x = x.ops[0]
+        while x.is_inst and x.op in ("zext", "trunc", "sext"):
+            x = x.ops[0]
+        if not (x.is_inst and x.op == "call" and x.callee):
+            return []
+        h = self.prog.fn(x.callee, self.f.unit)
+        if h is None or isinstance(h, ExternFn) or h.decl or h is self.f or h.ret not in ("i1", "i8", "i32"):
+            return []
+        call = x
+        h.build()
+        leaves = ret_sources(h)
+        cand = []
+        for (v, b) in leaves:
+            w = v
+            while w.is_inst and w.op in ("zext", "trunc", "sext"):
+                w = w.ops[0]
+            if w.is_const and w.is_int:
+                if bool(w.sval) == pol:
+                    cand.append((w, b))
+            else:
+                cand.append((w, b))
+        if len(cand) != 1:
+            return []
+        leaf, lb = cand[0]
+        facts = list(h.guards_at(lb))
+        t = lb.term
+        if t.op == "br" and len(t.x["succ"]) == 2:
+            for k, s_ in enumerate(t.x["succ"]):
+                if any(i.op in ("phi", "ret") for i in s_.insts):
+                    facts.append((t.ops[0], k == 0, t))
+        if not leaf.is_const:
+            facts.append((leaf, pol, t))
+        memo = {}
+        counter = [0]
+
+        def M(v, depth=0):
+            if v.is_const:
+                return v
+            if id(v) in memo:
+                return memo[id(v)]
+            if depth > 12:
+                return None
+            r = None
+            if not v.is_inst:
+                if v in h.params and v.idx < len(call.ops):
+                    r = call.ops[v.idx]
+            elif v.op in ("icmp", "load", "getelementptr", "bitcast", "zext", "sext", "trunc", "add", "sub", "mul", "and", "or",
+                          "lshr", "shl", "xor"):
+                ops = [M(o, depth + 1) for o in v.ops]
+                if all(o is not None for o in ops):
+                    if v.op == "load":
+                        # the helper must not have written the location before reading it
+                        if any(i.op == "store" for i in h.insts()):
+                            ops = None
+                    if ops is not None:
+                        n = Inst.__new__(Inst)
+                        counter[0] += 1
+                        n.fn, n.id, n.op, n.ty, n.ops = self.f, -1000 - counter[0], v.op, v.ty, ops
+                        n.bb, n.line, n.col, n.file, n.inl, n.pos, n.name = call.bb, call.line, 0, call.file, None, call.pos, getattr(v, "name", None)
+                        n.x = dict(v.x)
+                        if v.op == "getelementptr":
+                            # index operands inside the path description have to be translated as well
+                            path = []
+                            okp = True
+                            for el in v.x["gep"]:
+                                if el[0] in ("*", "[]"):
+                                    idx = M(el[1], depth + 1)
+                                    if idx is None:
+                                        okp = False
+                                        break
+                                    path.append((el[0], idx) + tuple(el[2:]))
+                                else:
+                                    path.append(el)
+                            if not okp:
+                                n = None
+                            else:
+                                n.x["gep"] = path
+                        r = n
+            memo[id(v)] = r
+            return r
+        out = []
+        for (c2, o2, t2) in facts:
+            if o2 not in (True, False):
+                continue
+            m = M(c2)
+            if m is not None and not m.is_const:
+                out.append((m, o2, br))
         return out
 
     def rel_facts(self, block, v):
